@@ -1,0 +1,49 @@
+//go:build verif
+
+// Contracts for the deductive checks under /verif (comment-only; no code).
+
+package decision
+
+// ---- C36: no peer's recorded want-list exceeds the configured limit ----------------------------
+//@ macro peerWants(l, p) = l.peers[p]
+//@ func (*peerLedger).Wants
+//@   prop C36
+//@   arith int-assumed
+//@   requires l != nil && l.peers != nil && l.cids != nil
+//@   requires[maps_are_allocated] (has(l.peers, p) ==> l.peers[p] != nil) && (has(l.cids, e.Cid) ==> l.cids[e.Cid] != nil)
+//@   modifies all
+//@   ensures[refused_only_when_full_and_new] !result ==> old(has(l.peers, p)) && l.maxEntriesPerPeer != 0 && old(len(l.peers[p])) == l.maxEntriesPerPeer && !old(has(l.peers[p], e.Cid))
+//@   ensures[refused_changes_nothing] !result ==> l.peers == old(l.peers) && len(l.peers[p]) == old(len(l.peers[p]))
+//@   ensures[accepted_is_recorded] result ==> has(l.peers, p) && has(l.peers[p], e.Cid) && l.peers[p][e.Cid].Priority == e.Priority && l.peers[p][e.Cid].WantType == e.WantType
+//@   ensures[limit_never_exceeded] l.maxEntriesPerPeer >= 1 && old(has(l.peers, p)) && old(len(l.peers[p])) <= l.maxEntriesPerPeer ==> len(l.peers[p]) <= l.maxEntriesPerPeer
+//@   ensures[first_want_of_a_peer] l.maxEntriesPerPeer >= 1 && !old(has(l.peers, p)) && result ==> len(l.peers[p]) <= l.maxEntriesPerPeer
+
+// ---- C36: overflow - wants without a local block go first, then the lowest priorities ----------
+// order in which overflowing newcomers are considered: most important first
+//@ func ext cmp.Compare
+//@   ensures (x < y ==> result < 0) && (x > y ==> result > 0) && (x == y ==> result == 0)
+//@ func (*Engine).handleOverflow$1
+//@   prop C36
+//@   arith int
+//@   modifies nothing
+//@   ensures[newcomers_most_important_first] (a.Entry.Priority > b.Entry.Priority ==> result < 0) && (a.Entry.Priority < b.Entry.Priority ==> result > 0)
+// order in which existing wants are given up: least important first
+//@ func (*Engine).handleOverflow$2
+//@   prop C36
+//@   arith int
+//@   modifies nothing
+//@   ensures[existing_least_important_first] (a.Priority < b.Priority ==> result < 0) && (a.Priority > b.Priority ==> result > 0)
+
+// ---- C36: which entries of an incoming message become wants ------------------------------------
+//@ func ext (github.com/ipfs/go-cid.Cid).ByteLen
+//@ func iface github.com/ipfs/boxo/bitswap/message.BitSwapMessage.Wantlist
+//@ func (*Engine).splitWantsCancelsDenials
+//@   prop C36
+//@   arith int-assumed
+//@   requires e != nil
+//@   modifies all
+//@   dyn callfield:peerBlockRequestFilter noeffect
+//@   site[cancels_are_cancels] builtin:append#0 : len(arg1) == 1 && arg1[0] == et && et.Cancel
+//@   site[denied_when_the_filter_refuses] builtin:append#1 : len(arg1) == 1 && arg1[0] == et && !et.Cancel && e.peerBlockRequestFilter != nil && !res("callfield:peerBlockRequestFilter#0", 0)
+//@   site[wants_are_permitted_and_within_the_limit] builtin:append#2 : len(arg1) == 1 && arg1[0] == et && !et.Cancel && (e.peerBlockRequestFilter == nil || res("callfield:peerBlockRequestFilter#0", 0)) && len(wants) < int(e.maxQueuedWantlistEntriesPerPeer) && cidPrefix(et.Entry.Cid).MhType != mh.IDENTITY && (e.maxCidSize == 0 || uint(res("call:ByteLen#0", 0)) <= e.maxCidSize)
+//@   site[filter_asked_about_this_peer_and_cid] callfield:peerBlockRequestFilter : arg0 == p && arg1 == et.Entry.Cid
